@@ -170,13 +170,15 @@ CLAIMS = {
     "C16": dict(
         technique="Lean 4 theorems on list models of the losses (reductions, masks, NCC/LCC, Dice/Tversky, MI symmetry) + "
                   "correspondence of functional and module forms",
-        text="52 theorems: mean/sum are the mean/sum of none; masked pointwise losses ignore mask-0 samples and average over "
+        text="60 theorems: mean/sum are the mean/sum of none; masked pointwise losses ignore mask-0 samples and average over "
              "the mask; norm scaling; pointwise losses zero/range/symmetric; NCC and LCC identical/range (Cauchy-Schwarz)/"
              "symmetric/affine-invariant with the exact epsilon law; Dice/Tversky identical/symmetric/range and "
              "Tversky(1/2,1/2) = Dice on binary inputs; MI symmetric for arbitrary window/log. the mixed encodings of one binary segmentation (foreground channel / one-hot / label map) give the same index and 1 for identical inputs. "
-             "tversky_loss TypeError, tversky weight shape, the NMI class and the multi-class label-map target (F-16f) were "
-             "repaired by fix: commits; the two clauses the current code still violates (ncc_loss mask shape, mi_loss ignores "
-             "mask-0 samples) are refuted and listed as known findings. MI/NMI identical/range need properties of log (partial).",
+             "with a mask, NCC keeps identical/range/symmetric/affine-invariant, ignores mask-0 samples and accepts every "
+             "documented mask shape; MI with a 0/1 mask equals MI of the kept samples and ignores masked-out values. All six "
+             "defects found (tversky_loss TypeError, tversky weight shape, NMI class, multi-class label-map target, ncc mask "
+             "shape, mi mask) were repaired by fix: commits; no C16 finding is open. MI/NMI identical/range need properties "
+             "of log (not stated).",
         ref="5 C16"),
     "C17": dict(
         technique="Lean 4 theorems on the regularisers assembled from the C12 stencil model, lame_parameters, "
